@@ -1,4 +1,5 @@
 import SimilarVerif.Lemmas.Remap
+import SimilarVerif.Lemmas.Helpers
 /-!
 # C17 — remapped slices are the original substrings and reconstruct both texts
 
@@ -38,5 +39,64 @@ example : remapOps (remapIndexes 0 [1, 1, 1]).toArray (remapIndexes 0 [1, 1, 1])
 
 example : remapOps (remapIndexes 0 [3, 1, 2]).toArray (remapIndexes 0 [3, 4]).toArray [.equal 0 0 1, .replace 1 2 1 1] =
     .ok [(.equal, false, 0, 3), (.delete, false, 3, 6), (.insert, true, 3, 7)] := by rfl
+
+end SimilarVerif.C17
+
+/-! ## the one-call helpers `utils::diff_chars` / `diff_words` / `diff_unicode_words` / `diff_graphemes`
+(`utilsDiffRemap`) and `utils::diff_lines` (`utilsDiffLines`), end to end
+
+Hypotheses: the token ranges tile the two texts with non-empty tokens (`TokP.Tiling`, what C06 proves for
+the tokenizers).  Every algorithm, every clock (in particular `w.clock = none`): totality of Patience needs
+no extra hypothesis here because all comparisons between tokens of two arrays are defined. -/
+namespace SimilarVerif.C17
+open SimilarVerif Spec RemapP TextP TokP
+
+/-- `TextDiffConfig::diff` never aborts and returns a valid script over the tokens -/
+theorem text_diff_total : type_of% @HelpersP.textDiffOps_total := @HelpersP.textDiffOps_total
+
+/-- everything about the remapping helpers in one statement -/
+theorem remap_helpers_spec : type_of% @HelpersP.utilsDiffRemap_spec := @HelpersP.utilsDiffRemap_spec
+
+/-- everything about `diff_lines` in one statement -/
+theorem lines_helper_spec : type_of% @HelpersP.utilsDiffLines_spec := @HelpersP.utilsDiffLines_spec
+
+/-- the helpers return `.ok _` (never panic / abort) -/
+theorem helpers_total : type_of% @HelpersP.helpers_total := @HelpersP.helpers_total
+
+/-- no returned slice is empty -/
+theorem helpers_nonempty : type_of% @HelpersP.helpers_nonempty := @HelpersP.helpers_nonempty
+
+/-- the slices whose tag is not Insert concatenate to the old text -/
+theorem helpers_reconstruct_old : type_of% @HelpersP.helpers_reconstruct_old := @HelpersP.helpers_reconstruct_old
+
+/-- the slices whose tag is not Delete concatenate to the new text -/
+theorem helpers_reconstruct_new : type_of% @HelpersP.helpers_reconstruct_new := @HelpersP.helpers_reconstruct_new
+
+/-- the tag sequence is that of the slice-wise expansion of the ops (`utilsDiffRemap`) resp. of
+`iter_all_changes` (`utilsDiffLines`) -/
+theorem helpers_tags : type_of% @HelpersP.helpers_tags := @HelpersP.helpers_tags
+
+#print axioms text_diff_total
+#print axioms remap_helpers_spec
+#print axioms lines_helper_spec
+#print axioms helpers_total
+#print axioms helpers_nonempty
+#print axioms helpers_reconstruct_old
+#print axioms helpers_reconstruct_new
+#print axioms helpers_tags
+
+/-- non-vacuity: `"ab c"` as tokens `ab`, ` `, `c` and `"ab d"` as `ab`, ` `, `d` are tilings … -/
+example : Tiling [(0, 2), (2, 3), (3, 4)] [97, 98, 32, 99].length ∧
+    Tiling [(0, 2), (2, 3), (3, 4)] [97, 98, 32, 100].length := by
+  simp [Tiling, TilingFrom]
+
+/-- … and the helpers return what the theorems say (all three algorithms) -/
+example : ∀ alg : Alg, utilsDiffRemap alg [97, 98, 32, 99] [97, 98, 32, 100] [(0, 2), (2, 3), (3, 4)] [(0, 2), (2, 3), (3, 4)] {} =
+    .ok [(.equal, [97, 98, 32]), (.delete, [99]), (.insert, [100])] := by
+  intro alg; cases alg <;> rfl
+
+example : ∀ alg : Alg, utilsDiffLines alg [97, 98, 32, 99] [97, 98, 32, 100] [(0, 2), (2, 3), (3, 4)] [(0, 2), (2, 3), (3, 4)] {} =
+    .ok [(.equal, [97, 98]), (.equal, [32]), (.delete, [99]), (.insert, [100])] := by
+  intro alg; cases alg <;> rfl
 
 end SimilarVerif.C17
